@@ -691,12 +691,13 @@ func parallel(n int, f func(i int)) {
 	wg.Wait()
 }
 
-// usage: c06 <keyset-label> <mode> <dir with keys.ndjson and vals/pairs/triples.ndjson> <scale-stride>
-// scale-stride s: row i is replayed at scales {(i+j) mod 5 : j < s} (s=5: all scales).
+// usage: c06 <keyset-label> <mode> <dir with keys.ndjson and vals/pairs/triples.ndjson> <nscales> <rounds>
+// nscales s: row i is replayed at scales {(i+j) mod 5 : j < s} (s=5: all scales);
+// rounds: number of concrete key universes (policy shape / name block size rotate).
 func main() {
 	rep := vh.NewReporter()
-	if len(os.Args) < 5 {
-		rep.Dead("usage: c06 keyset mode dir nscales")
+	if len(os.Args) < 6 {
+		rep.Dead("usage: c06 keyset mode dir nscales rounds")
 	}
 	ks, mode, dir := os.Args[1], os.Args[2], os.Args[3]
 	var nsc int
@@ -710,9 +711,10 @@ func main() {
 	}
 	scs := scales()
 	seed := vh.Seed()
-	rounds := 2
-	if vh.Tier() == "thorough" {
-		rounds = 3
+	var rounds int
+	fmt.Sscan(os.Args[5], &rounds)
+	if rounds < 1 || rounds > 6 {
+		rep.Dead("rounds must be 1..6")
 	}
 	notes := map[string]int{}
 	nrows := 0
